@@ -450,3 +450,239 @@ Theorem ne_zero_unit :
         sp_min := Some (zero_version SPyPI); sp_max := Some (zero_version SPyPI) |}.
 Proof. reflexivity. Qed.
 End Ops.
+
+(* ================================================================ ~=M.m.p, ==M.m.*, !=M.m.* *)
+Definition cn := compare_nums.
+
+Lemma cand_raw_l u U s a b c : pcand u U -> compare u (mk3p s a b c) = Ok (compare_nums U [a; b; c]).
+Proof.
+  intros C. unfold compare. rewrite (pc_sys _ _ C), (pc_ext _ _ C), (pc_num _ _ C). cbn -[compare_nums].
+  unfold pep_compare. cbn -[compare_nums].
+  destruct (compare_nums U [a; b; c] =? 0) eqn:E; cbn -[compare_nums]; [apply Z.eqb_eq in E; rewrite E|]; reflexivity.
+Qed.
+
+Lemma cand_raw_r u U s a b c : pcand u U -> compare (mk3p s a b c) u = Ok (compare_nums [a; b; c] U).
+Proof.
+  intros C. unfold compare. rewrite (pc_sys _ _ C), (pc_ext _ _ C), (pc_num _ _ C). cbn -[compare_nums].
+  unfold pep_compare. cbn -[compare_nums].
+  destruct (compare_nums [a; b; c] U =? 0) eqn:E; cbn -[compare_nums]; [apply Z.eqb_eq in E; rewrite E|]; reflexivity.
+Qed.
+
+Lemma inf1 rest : Forall fin rest -> compare_nums [infinity] rest = 1.
+Proof.
+  intros F. destruct rest as [|z rest]; [reflexivity|]. inversion F as [|? ? Hz _]; subst. unfold fin in Hz.
+  simpl. unfold sgnZ. destruct (Z.compare_spec infinity z); try lia. reflexivity.
+Qed.
+
+Lemma rest0 rest : Forall fin rest -> 0 <= compare_nums rest [0].
+Proof.
+  intros F. assert (N0 : MP.nonneg [0]) by (repeat constructor; lia).
+  rewrite compare_nums_mv by (auto using fin_nonneg).
+  pose proof (MP.zero_below rest (fin_nonneg _ F)). pose proof (MP.mv_antisym [0] rest). lia.
+Qed.
+
+Ltac sgn_cases :=
+  unfold sgnZ;
+  repeat match goal with
+         | |- context [Z.compare ?a ?b] => destruct (Z.compare_spec a b)
+         end; cbn [Z.eqb andb orb negb]; try lia; try reflexivity.
+
+Lemma cn_cons x a y b : compare_nums (x :: a) (y :: b) = if sgnZ x y =? 0 then compare_nums a b else sgnZ x y.
+Proof. reflexivity. Qed.
+
+(* the arithmetic of a prefix: U starts with M.m (missing numbers read as 0) iff it lies between
+   M.m.0 and M.m.infinity *)
+Lemma prefix_between M m U : fin M -> fin m -> Forall fin U ->
+  PS.prefix_match [M; m] U = (0 <=? compare_nums U [M; m; 0]) && (0 <=? compare_nums [M; m; infinity] U).
+Proof.
+  unfold fin. intros HM Hm F.
+  destruct U as [|x [|y rest]].
+  - cbn. sgn_cases; zcases.
+  - inversion F as [|? ? Hx _]; subst. unfold fin in Hx. cbn. sgn_cases; zcases.
+  - inversion F as [|? ? Hx F1]; subst. inversion F1 as [|? ? Hy F2]; subst. unfold fin in Hx, Hy.
+    pose proof (rest0 rest F2) as R0. pose proof (inf1 rest F2) as RI.
+    cbn [PS.prefix_match]. rewrite !cn_cons, RI.
+    set (r := compare_nums rest [0]) in *. clearbody r.
+    sgn_cases; zcases.
+Qed.
+
+Lemma ge_p_ge_0 M m p U : fin M -> fin m -> fin p -> Forall fin U ->
+  0 <= compare_nums U [M; m; p] -> 0 <= compare_nums U [M; m; 0].
+Proof.
+  intros HM Hm Hp F. assert (F0 : fin 0) by (unfold fin, infinity; lia).
+  rewrite !compare_nums_mv by (auto using fin_nonneg, nn3).
+  destruct U as [|x [|y rest]]; unfold fin in *.
+  - cbn. unfold MR.zcmp. sgn_cases.
+  - inversion F; subst. cbn. unfold MR.zcmp. sgn_cases.
+  - inversion F as [|? ? Hx F1]; subst. inversion F1 as [|? ? Hy F2]; subst.
+    pose proof (MP.zero_below rest (fin_nonneg _ F2)) as Z0. pose proof (MP.mv_antisym [0] rest) as A0.
+    cbn [MR.mv_compare]. unfold MR.zcmp.
+    set (r := MR.mv_compare rest [p]). set (r0 := MR.mv_compare rest [0]) in *. clearbody r.
+    sgn_cases.
+Qed.
+
+Section Ops2.
+Variable pv : system -> bool -> bytes -> res parse_out.
+Variables (str : bytes) (M m p : Z).
+Hypothesis HM : fin M.
+Hypothesis Hm : fin m.
+Hypothesis Hp : fin p.
+
+Notation lo := (mk3p str M m p).
+
+Lemma cn_upper a b c : c < infinity -> compare_nums [a; b; c] [a; b; infinity] = -1.
+Proof.
+  intros. rewrite !cn_cons. unfold sgnZ. rewrite !Z.compare_refl. cbn [Z.eqb].
+  destruct (Z.compare_spec c infinity); try lia. reflexivity.
+Qed.
+
+Lemma in_between u U pre s1 s2 lowp : pcand u U ->
+  match_span u pre {| sp_rank := RVector; sp_min_open := false; sp_max_open := false;
+                      sp_min := Some (mk3p s1 M m lowp); sp_max := Some (mk3p s2 M m infinity) |} =
+  Ok ((0 <=? compare_nums U [M; m; lowp]) && (0 <=? compare_nums [M; m; infinity] U)).
+Proof.
+  intros C. rewrite (match_span_final u U pre _ C). unfold span_contains.
+  cbn [sp_rank sp_min sp_max sp_min_open sp_max_open compare_opt].
+  rewrite (cand_raw_l u U s1 M m lowp C). cbn [bind].
+  rewrite (cand_raw_r u U s2 M m infinity C).
+  rewrite (pc_sys _ _ C), (pc_rel _ _ C). cbn [andb orb sys_eqb sys_index Z.eqb Pos.eqb negb].
+  destruct pre; zcases.
+Qed.
+
+(* ~=M.m.p : [M.m.p, M.m.inf] ; packaging: >=M.m.p together with ==M.m.* *)
+Theorem compat_sound : span_sound (op_version_to_span pv go_tokBacon lo) (spec_of PS.PCompat M m p false [M; m; p]).
+Proof.
+  unfold span_sound, op_version_to_span. rewrite (W_lo str M m p HM Hm Hp). cbn [andb].
+  change (v_sys lo) with SPyPI. change (v_num lo) with [M; m; p].
+  unfold go_tokEmpty, go_tokEqual, go_tokGreater, go_tokGreaterEqual, go_tokLess, go_tokLessEqual,
+         go_tokCaret, go_tokTilde, go_tokBacon.
+  cbn [sys_eqb sys_index Z.eqb Pos.eqb length Nat.ltb Nat.leb has_pre v_pre mk3p andb negb orb].
+  unfold is_rubygems_or_pypi. cbn [sys_eqb sys_index Z.eqb Pos.eqb orb v_user_num_count mk3p Z.to_nat Pos.to_nat Pos.iter_op Nat.add].
+  change (set_patch lo infinity) with (mk3p str M m infinity).
+  unfold op_tail. rewrite (set_tail_lo str M m p HM Hm Hp). change (v_sys lo) with SPyPI.
+  unfold needs_rebuild. cbn [sys_eqb sys_index Z.eqb Pos.eqb orb].
+  unfold fin in *.
+  assert (H2 : set_tail (mk3p str M m infinity) infinity infinity = mk3p str M m infinity).
+  { unfold set_tail. cbn [v_num mk3p at_least3 length Nat.max pad_to Nat.sub repeat app fill_from].
+    rewrite !(proj2 (Z.eqb_neq _ infinity)) by lia. rewrite Z.eqb_refl. reflexivity. }
+  rewrite H2. unfold rebuild_extension. cbn [ext_empty v_ext mk3p bind].
+  rewrite new_span_3 by (unfold infinity; lia). rewrite cn_upper by lia. cbn [Z.eqb Z.ltb Z.compare].
+  eexists. split; [reflexivity|]. intros u U pre C. rewrite (in_between u U pre str str p C).
+  unfold PS.contains1, spec_of. cbn [PS.sp_op PS.sp_ver PS.pv_release PS.final removelast].
+  rewrite <- (compare_nums_pep U [M; m; p] (fin_nonneg _ (pc_fin _ _ C)) (nn3 M m p HM Hm Hp)).
+  rewrite (prefix_between M m U HM Hm (pc_fin _ _ C)).
+  pose proof (ge_p_ge_0 M m p U HM Hm Hp (pc_fin _ _ C)) as G.
+  f_equal. zcases.
+Qed.
+End Ops2.
+
+(* M.m.* as the parser delivers it: three numbers, the last one the wildcard *)
+Definition mk3w (str : bytes) (M m : Z) : version :=
+  {| v_sys := SPyPI; v_user_num_count := 3; v_is_prerelease := false; v_str := str;
+     v_num := [M; m; -1]; v_pre := []; v_build := []; v_ext := Pep440Ext None |}.
+
+Section Prefix.
+Variable pv : system -> bool -> bytes -> res parse_out.
+Variables (str : bytes) (M m : Z).
+Hypothesis HM : fin M.
+Hypothesis Hm : fin m.
+
+Notation w := (mk3w str M m).
+Notation wlo := (mk3p str M m 0).
+Notation whi := (mk3p str M m infinity).
+
+Lemma W_w : is_wildcard_v w = true.
+Proof.
+  unfold is_wildcard_v, is_wildcard, wildcard, fin in *. cbn.
+  rewrite !(proj2 (Z.eqb_neq _ (-1))) by lia. reflexivity.
+Qed.
+
+Lemma new_span_w mo xo :
+  new_span w mo w xo = Ok {| sp_rank := RVector; sp_min_open := mo; sp_max_open := xo; sp_min := Some wlo; sp_max := Some whi |}.
+Proof.
+  unfold new_span, major, wildcard, fin in *. cbn [v_num mk3w get_num nth].
+  assert (A1 : (M =? -1) = false) by (apply Z.eqb_neq; lia).
+  assert (A2 : (m =? -1) = false) by (apply Z.eqb_neq; lia).
+  rewrite A1.
+  assert (T0 : set_tail w (-1) 0 = wlo).
+  { unfold set_tail. cbn [v_num mk3w at_least3 length Nat.max pad_to Nat.sub repeat app fill_from]. rewrite A1, A2. reflexivity. }
+  assert (TI : set_tail w (-1) infinity = whi).
+  { unfold set_tail. cbn [v_num mk3w at_least3 length Nat.max pad_to Nat.sub repeat app fill_from]. rewrite A1, A2. reflexivity. }
+  rewrite T0, TI. change (vset_build wlo []) with wlo. change (vset_build whi []) with whi.
+  rewrite compare33, cn_upper by (unfold infinity; lia). reflexivity.
+Qed.
+
+Lemma eq_w_span typ : typ = go_tokEqual \/ typ = go_tokEmpty ->
+  op_version_to_span pv typ w =
+  Ok {| sp_rank := RVector; sp_min_open := false; sp_max_open := false; sp_min := Some wlo; sp_max := Some whi |}.
+Proof.
+  intros T. unfold op_version_to_span. rewrite W_w.
+  change (v_sys w) with SPyPI. cbn [sys_eqb sys_index Z.eqb Pos.eqb negb andb].
+  change (clear_pre w) with w. rewrite W_w.
+  change (v_sys w) with SPyPI. change (v_num w) with [M; m; -1].
+  cbn [sys_eqb sys_index Z.eqb Pos.eqb length Nat.ltb Nat.leb has_pre v_pre mk3w andb negb orb].
+  destruct T as [-> | ->]; unfold go_tokEmpty, go_tokEqual; cbn [Z.eqb Pos.eqb orb andb]; apply new_span_w.
+Qed.
+
+(* ==M.m.* : [M.m.0, M.m.inf] ; packaging: the candidate, padded with zeros, starts with M.m *)
+Theorem prefix_eq_sound : span_sound (op_version_to_span pv go_tokEqual w) (spec_of PS.PEq M m 0 true [M; m]).
+Proof.
+  unfold span_sound. rewrite (eq_w_span go_tokEqual (or_introl eq_refl)).
+  eexists. split; [reflexivity|]. intros u U pre C.
+  rewrite (in_between M m u U pre str str 0 C).
+  unfold PS.contains1, spec_of. cbn [PS.sp_op PS.sp_ver PS.sp_prefix PS.pv_release PS.final].
+  rewrite (prefix_between M m U HM Hm (pc_fin _ _ C)). reflexivity.
+Qed.
+
+Lemma compare_whi_inf : compare whi (inf_version SPyPI) = Ok (-1).
+Proof.
+  unfold compare. cbn -[compare_nums]. unfold generic_compare. cbn -[compare_nums].
+  unfold fin in *. rewrite lt_inf by lia. reflexivity.
+Qed.
+
+(* !=M.m.* : [0.0.0, M.m.0) and (M.m.inf, inf.inf.inf]; M.m must not be 0.0 (then the first span is
+   the unit span {0.0.0} with an ignored open end) *)
+Theorem prefix_ne_sound : (M <> 0 \/ m <> 0) ->
+  exists s1 s2, exclude_to_spans pv w = Ok (s1, s2) /\
+    forall u U pre, pcand u U ->
+      match_spans u pre [s1; s2] = Ok (PS.contains1 (spec_of PS.PNe M m 0 true [M; m]) U).
+Proof.
+  intros NZ. unfold exclude_to_spans. cbn [v_num mk3w rev app].
+  unfold is_wild_or_inf, wildcard. cbn [existsb].
+  assert (F0 : fin 0) by (unfold fin, infinity; lia).
+  unfold fin in HM, Hm.
+  rewrite !(proj2 (Z.eqb_neq M (-1))), !(proj2 (Z.eqb_neq m (-1))), !(proj2 (Z.eqb_neq M infinity)), !(proj2 (Z.eqb_neq m infinity)) by lia.
+  cbn [orb Z.eqb Pos.eqb].
+  change (match infinity with Z.neg q => (1 =? q)%positive | _ => false end) with false. cbv iota.
+  rewrite (eq_w_span go_tokEmpty (or_intror eq_refl)). cbn [bind sp_min sp_max sp_rank opt_version].
+  change (v_sys w) with SPyPI.
+  assert (Wl : nowild wlo = true) by (apply nowild3; lia).
+  assert (Wh : nowild whi = true) by (apply nowild3; unfold infinity; lia).
+  rewrite (MP.new_span_cmp (zero_version SPyPI) false wlo true eq_refl Wl).
+  change (vset_build (zero_version SPyPI) []) with (zero_version SPyPI). change (vset_build wlo []) with wlo.
+  rewrite (compare_zero_lo str M m 0 HM Hm F0) by (destruct NZ; auto).
+  cbn [bind Z.eqb Z.ltb Z.compare].
+  rewrite (MP.new_span_cmp whi true (inf_version SPyPI) false Wh eq_refl).
+  change (vset_build (inf_version SPyPI) []) with (inf_version SPyPI). change (vset_build whi []) with whi.
+  rewrite compare_whi_inf. cbn [bind Z.eqb Z.ltb Z.compare].
+  eexists. eexists. split; [reflexivity|]. intros u U pre C.
+  cbn [match_spans]. rewrite !(match_span_final u U pre _ C). unfold span_contains.
+  cbn [sp_rank sp_min sp_max sp_min_open sp_max_open compare_opt].
+  rewrite (compare_cand_zero u U C), (compare_inf_cand u U C).
+  rewrite (cand_raw_r u U str M m 0 C), (cand_raw_l u U str M m infinity C).
+  rewrite (pc_sys _ _ C), (pc_rel _ _ C). cbn [bind Z.eqb Z.ltb Z.compare andb orb sys_eqb sys_index Pos.eqb negb].
+  unfold PS.contains1, spec_of. cbn [PS.sp_op PS.sp_ver PS.sp_prefix PS.pv_release PS.final].
+  rewrite (prefix_between M m U ltac:(exact HM) ltac:(exact Hm) (pc_fin _ _ C)).
+  assert (NI3 : MP.nonneg [M; m; infinity]) by (repeat constructor; unfold infinity; lia).
+  rewrite (compare_nums_antisym U [M; m; 0] (fin_nonneg _ (pc_fin _ _ C)) (nn3 M m 0 HM Hm F0)).
+  rewrite (compare_nums_antisym U [M; m; infinity] (fin_nonneg _ (pc_fin _ _ C)) NI3).
+  destruct pre; zcases.
+Qed.
+
+(* !=0.0.* : the first span is the unit span {0.0.0}; its open end is not looked at *)
+Theorem prefix_ne_zero_unit s :
+  new_span (zero_version SPyPI) false (mk3p s 0 0 0) true =
+  Ok {| sp_rank := RUnit; sp_min_open := false; sp_max_open := true;
+        sp_min := Some (zero_version SPyPI); sp_max := Some (zero_version SPyPI) |}.
+Proof. reflexivity. Qed.
+End Prefix.
